@@ -153,6 +153,17 @@ func HarnessC15Open() {
 			}
 			return nil
 		})
+		if verifBool("odd-key-first") {
+			// a key of another length under the same prefix, holding a valid bitmap and sorting
+			// before every stored value, does not make the damaged one acceptable
+			good, err := roaring.New().ToBytes()
+			if err != nil {
+				panic(err)
+			}
+			verifEdit(path, func(b *bbolt.Bucket) error {
+				return b.Put(append(append([]byte{}, keyPrefixValue...), make([]byte, 9)...), good)
+			})
+		}
 		needPreload = true
 	case 7: // path does not exist
 	case 8: // path is a symbolic link to a file that does not exist
@@ -217,11 +228,11 @@ func HarnessC15Open() {
 // valid index) fails and leaves the file unchanged.
 func HarnessC16NoClobber() {
 	path := verifTempPath("c16.updog")
-	kind := 1 + verifChoice("existing", 4)
+	kind := 1 + verifChoice("existing", 5)
 	if kind == 4 {
 		verifSmallIndex(path)
 	} else {
-		verifMakeFile(path, kind)
+		verifMakeFile(path, kind) // 5: the path is a directory
 	}
 	before := verifFileVersion(path)
 	w := NewIndexWriter(path)
